@@ -28,10 +28,35 @@ pub struct Classified {
     pub other_items: usize,
 }
 
+fn despell_crate(ts: TokenStream) -> TokenStream {
+    use proc_macro2::{Group, Ident, TokenTree};
+    let tts: Vec<TokenTree> = ts.into_iter().collect();
+    let mut out = Vec::with_capacity(tts.len());
+    for (i, tt) in tts.iter().enumerate() {
+        out.push(match tt {
+            TokenTree::Group(g) => {
+                let mut n = Group::new(g.delimiter(), despell_crate(g.stream()));
+                n.set_span(g.span());
+                TokenTree::Group(n)
+            }
+            TokenTree::Ident(id) if id == "crate" && !matches!(tts.get(i + 1), Some(TokenTree::Punct(p)) if p.as_char() == ':') => TokenTree::Ident(Ident::new("__vf_crate", id.span())),
+            other => other.clone(),
+        });
+    }
+    out.into_iter().collect()
+}
+
 /// Parse the derive's output as items: impl blocks of `trait_name`, compile_error! invocations
 /// (message + byte range of their tokens), anything else.
 pub fn classify(ts: TokenStream, trait_name: &str) -> Result<Classified, String> {
-    let file: syn::File = syn::parse2(ts.clone()).map_err(|e| format!("output does not parse as items: {e}"))?;
+    // syn reads a statement that starts with `crate` and is not followed by `::` as an item with
+    // the retired `crate` visibility and gives up (`else { crate() }` for `default = crate`);
+    // rustc parses it and reports the name at the user's token. Where the first reading fails
+    // the stream is read again with such a `crate` spelled as an ordinary identifier.
+    let file: syn::File = match syn::parse2(ts.clone()) {
+        Ok(f) => f,
+        Err(e) => syn::parse2(despell_crate(ts.clone())).map_err(|_| format!("output does not parse as items: {e}"))?,
+    };
     let mut out = Classified {
         impls: vec![],
         errors: vec![],
